@@ -2,11 +2,13 @@
   Registry of oracle op handlers: (op prefix, handler). One line per domain.
 -/
 import Oracle.Avc
+import Oracle.Http
 
 namespace Oracle
 
 def handlers : List (String × (String → List String → Option String)) := [
-  ("avc.", Oracle.Avc.handle)
+  ("avc.", Oracle.Avc.handle),
+  ("http.", Oracle.Http.handle)
 ]
 
 def dispatch (op : String) (args : List String) : Option String :=
